@@ -307,6 +307,10 @@ impl Engine for WireEngine {
         } else {
             1
         };
+        // C06 / C18: sometimes the damaged exchange is followed by an undamaged one on the same
+        // thread and service instance (blocking flavour: strictly one after the other)
+        let clean_follow_up = faults_on && matches!(self.profile, Profile::C06 | Profile::C18) && !is_async && ctx.chance(1, 3);
+        let ncalls = if clean_follow_up { 2 } else { ncalls };
         ctx.sig(if is_async { "async" } else { "blocking" });
         let mut calls: Vec<CallRec> = Vec::new();
         let mut transports: Vec<SimTransport> = Vec::new();
@@ -360,7 +364,10 @@ impl Engine for WireEngine {
             }
             let args = ctx.with_tape(|t| crate::mirror::gen_args(ep, t, &st.knobs));
             let ret = ctx.with_tape(|t| crate::mirror::gen_ret(ep, t, &st.knobs));
-            let mut plan = self.plan_for(ctx, &st.knobs, faults_on, &run_enabled);
+            let mut plan = self.plan_for(ctx, &st.knobs, faults_on && !(clean_follow_up && c == 1), &run_enabled);
+            if clean_follow_up && c == 1 {
+                ctx.count("fault.clean_call_after_damaged_call");
+            }
             if let Some(b) = ir().eps[ep].body_arg() {
                 if !ir().is_binary(&b.ty) {
                     let idx = args.iter().position(|a| a.name == b.name).unwrap();
@@ -524,6 +531,8 @@ impl Engine for WireEngine {
             "HTTP status >= 300 is the embedding client's business (Client contract) and is not simulated; server errors are handed to the client as errors".into(),
             "generated types are constructed through conjure_serde::json::client_from_str from IR-driven documents".into(),
             "nesting depth <= 6 and documents of <= ~150 nodes per value".into(),
+            "C09 on failure: endpoint arguments are decoded in declaration order (the macro expansion emits them in that order), so declared-safe arguments declared before the argument an error names must already be recorded".into(),
+            "macro-derived mirrors cover 11 client and 9 server endpoints; MacroOnly.segments exists only as macro traits (multi-segment path parameters cannot be declared in a Conjure IR)".into(),
         ]
     }
 
